@@ -1,6 +1,7 @@
 import Mathlib.Data.List.Nodup
 import GnpyModel
 import GnpyProofs.Lemmas.SlotsMap
+import GnpyProofs.Lemmas.SlotsBands
 /- Property theorems for C15 — every designed network yields a consistent OMS partition and spectrum map.
    Model: GnpyModel/Slots.lean (second half). Helper lemmas: GnpyProofs/Lemmas/SlotsMap.lean. -/
 namespace Gnpy.Slots
@@ -68,6 +69,12 @@ theorem inBands_iff_frequency (bands : List Band) (x : Int) :
     exact ⟨b, hb, (lo b.1).1 h1, (hi b.2).1 h2⟩
   · rintro ⟨b, hb, h1, h2⟩
     exact ⟨b, hb, (lo b.1).2 h1, (hi b.2).2 h2⟩
+
+/-- **common band = intersection.** The band list from which the map of an OMS is drawn (`find_common_range` of its
+    amplifiers) contains a frequency exactly when every amplifier of the OMS has a band containing it. -/
+theorem common_band_is_intersection (amps : List (List Band)) (dflt : Option Band) (f : Int) (hne : amps ≠ []) :
+    Inside (commonRange amps dflt) f ↔ ∀ a ∈ amps, Inside a f :=
+  commonRange_inside amps dflt f hne
 
 theorem nodup_intRange (a b : Int) : (intRange a b).Nodup := by
   unfold intRange
